@@ -115,3 +115,39 @@ package expand
 //@ props C28
 //@ returns (s, consumed, err)
 //@ ensures [consumed-in-range] 0 <= consumed && consumed <= len(args)
+
+// ---- C33 call sites / C28 in expand ----
+//@ func Config.assignElem
+//@ props C28 C33
+//@ requires [variable-invariant] wfArr(vr.List, vr.Indexes)
+
+//@ func Variable.indexedVal
+//@ props C28 C33
+//@ requires [variable-invariant] wfArr(v.List, v.Indexes)
+//@ requires [nonneg] i >= 0
+
+//@ func Variable.indexedKeys
+//@ props C28 C33
+//@ requires [variable-invariant] wfArr(v.List, v.Indexes)
+
+// Variable accessors that read only the value they are called on.
+//@ func Variable.Declared
+//@ props C28
+//@ pure
+//@ func Variable.IsSet
+//@ props C28
+//@ pure
+//@ func Variable.String
+//@ props C28
+//@ requires [variable-invariant] wfArr(v.List, v.Indexes)
+//@ pure
+
+// Resolve follows name references through the environment: what it returns is v itself or came from env.Get.
+//@ func Variable.Resolve
+//@ props C28 C33
+//@ returns (n, out)
+//@ requires [variable-invariant] wfArr(v.List, v.Indexes) && v.Kind < KeepValue
+//@ ensures [variable-invariant] wfArr(out.List, out.Indexes)
+//@ ensures [resolved-kind] out.Kind != NameRef && out.Kind < KeepValue
+//@ loop 1 invariant [variable-invariant] wfArr(v.List, v.Indexes) && v.Kind < KeepValue
+//@ pure
